@@ -97,11 +97,16 @@ def drive_products(rec, ells):
     events = []
     for ell in ells:
         for (kind, lx, ly) in [("baa", "a", "a"), ("bbb", "b", "b"), ("bbc", "b", "c"), ("x2c1", "b", "c"), ("x2c2", "b", "c")]:
-            for pat in ("max", "alt", "single"):
+            for pat in ("max", "alt", "single", "lane"):
+                if (pat == "lane" and ell >= 1000) or (pat == "single" and ell == 10000):
+                    continue        # (value-pattern probes at the short lengths and at 9999; the accumulator bounds at 10000)
                 xe = 2 if kind.startswith("x2") else 1
                 ye = {"x2c1": 2, "x2c2": 4}.get(kind, 1)
                 if pat == "single":     # one maximal term (the last one) among zeros: each term must be counted exactly once
                     xs = [c10.lanes(qc, lx, "max", rng, i) if i >= (ell - 1) * xe else [0] * (8 if lx == "c" else 4) for i in range(ell * xe)]
+                    ys = [c10.lanes(qc, ly, "max", rng, i) for i in range(ell * ye)]
+                elif pat == "lane":     # one maximal lane per term, the others exactly zero, against maximal second operands
+                    xs = [c10.lanes(qc, lx, "lane", rng, i) for i in range(ell * xe)]
                     ys = [c10.lanes(qc, ly, "max", rng, i) for i in range(ell * ye)]
                 else:
                     xs = [c10.lanes(qc, lx, pat, rng, i) for i in range(ell * xe)]
